@@ -1,6 +1,7 @@
 package mon
 
 import (
+	"regexp"
 	"fmt"
 	"math/rand"
 	"reflect"
@@ -114,6 +115,12 @@ func runC30(r *lib.Run) {
 				r.Hit("dangling-rejected")
 				for _, l := range dang {
 					r.Hit("dangling:" + leafrefClass(l))
+					if strings.Contains(mutated, "predicate excludes") {
+						r.Hit("dangling:value-excluded-by-predicate")
+					}
+					if strings.Contains(mutated, "predicate source unset") {
+						r.Hit("dangling:predicate-source-unset")
+					}
 				}
 			default:
 				r.Hit("satisfied-accepted")
@@ -126,7 +133,7 @@ func runC30(r *lib.Run) {
 			}
 		}
 	}
-	r.RequireCov("variant:satisfied", "variant:dangling", "dangling-rejected", "satisfied-accepted-with-leafrefs")
+	r.RequireCov("variant:satisfied", "variant:dangling", "dangling-rejected", "satisfied-accepted-with-leafrefs", "dangling:value-excluded-by-predicate", "dangling:predicate-source-unset")
 }
 
 // c30Dangle makes exactly one leafref leaf dangle: either by re-pointing it to a
@@ -153,10 +160,54 @@ func c30Dangle(cfg *lib.Cfg, t ygot.GoStruct, rng *rand.Rand) string {
 	sort.Slice(cs, func(i, j int) bool {
 		return lib.PathString(cs[i].n.Path)+cs[i].f.GoName < lib.PathString(cs[j].n.Path)+cs[j].f.GoName
 	})
-	c := cs[rng.Intn(len(cs))]
+	// choose the kind of reference first so that rare kinds (predicates) are broken as often as common ones
+	byPath := map[string][]cand{}
+	var lps []string
+	for _, c := range cs {
+		if _, ok := byPath[c.f.LeafrefPath]; !ok {
+			lps = append(lps, c.f.LeafrefPath)
+		}
+		byPath[c.f.LeafrefPath] = append(byPath[c.f.LeafrefPath], c)
+	}
+	sort.Strings(lps)
+	grp := byPath[lps[rng.Intn(len(lps))]]
+	c := grp[rng.Intn(len(grp))]
 	fv := c.n.V.Elem().Field(c.f.Idx)
 	if fv.Kind() != reflect.Ptr {
 		return ""
+	}
+	// a reference with a key predicate: point it at a value that exists in the
+	// list but only in entries the predicate excludes
+	if m := curPredRe.FindStringSubmatch(c.f.LeafrefPath); m != nil && rng.Intn(3) == 0 {
+		// unset the leaf the predicate takes its value from: the node-set becomes empty
+		for _, sf := range c.n.Info.Fields {
+			if sf.Kind == lib.KLeaf && len(sf.Path) == 1 && sf.Path[0] == m[2] && isSet(c.n.V.Elem().Field(sf.Idx)) {
+				sv := c.n.V.Elem().Field(sf.Idx)
+				sv.Set(reflect.Zero(sv.Type()))
+				return "predicate source unset: " + lib.PathString(c.n.Path) + "/" + m[2]
+			}
+		}
+	}
+	if strings.Contains(c.f.LeafrefPath, "[") && rng.Intn(3) > 0 {
+		o := cfg.Observe(t)
+		lp := append(append([]lib.PathElem(nil), c.n.Path...), pathElems(c.f.Path)...)
+		allowed := map[string]bool{}
+		for _, v := range lib.EvalLeafref(o, lp, c.f.LeafrefPath) {
+			allowed[v] = true
+		}
+		var excluded []string
+		for _, v := range lib.EvalLeafref(o, lp, predRe.ReplaceAllString(c.f.LeafrefPath, "")) {
+			if !allowed[v] {
+				excluded = append(excluded, v)
+			}
+		}
+		if len(excluded) > 0 {
+			nv := reflect.New(fv.Type()).Elem()
+			if lib.ParseCanonInto(nv, excluded[rng.Intn(len(excluded))]) {
+				fv.Set(nv)
+				return "re-pointed to a value the predicate excludes: " + lib.PathString(c.n.Path) + "/" + strings.Join(c.f.Path, "/")
+			}
+		}
 	}
 	e := reflect.New(fv.Type().Elem())
 	switch e.Elem().Kind() {
@@ -183,5 +234,8 @@ func c30Dangle(cfg *lib.Cfg, t ygot.GoStruct, rng *rand.Rand) string {
 	fv.Set(e)
 	return "re-pointed " + lib.PathString(c.n.Path) + "/" + strings.Join(c.f.Path, "/")
 }
+
+var curPredRe = regexp.MustCompile(`\[(?:[\w.-]+:)?([\w.-]+)\s*=\s*current\(\)/\.\./(?:[\w.-]+:)?([\w.-]+)\]`)
+var predRe = regexp.MustCompile(`\[[^\]]*\]`)
 
 var _ = ytypes.LeafrefOptions{}
